@@ -468,8 +468,9 @@ func mergeHeadersRule(p *Prog, r *Report) {
 		d := operandClosure(v)
 		return d[want] && !d[other]
 	}
-	nAssign, nAppend := 0, 0
+	nA, nB := 0, 0
 	why := ""
+	var updA, updB []ssa.Instruction
 	eachInstr(fn, func(in ssa.Instruction) {
 		mu, ok := in.(*ssa.MapUpdate)
 		if !ok {
@@ -483,35 +484,49 @@ func mergeHeadersRule(p *Prog, r *Report) {
 			why += " key at " + p.InstrPos(in) + " is not lower-cased;"
 		}
 		v := canon(mu.Value)
-		if loadedField(v) == valF {
-			nAssign++
-			if !fromOnly(v, a, b) {
-				why += " plain assignment at " + p.InstrPos(in) + " takes values that are not exclusively from the first parameter (a later assignment replaces what the headers contributed);"
+		// the values contributed by this update and whether they go behind what is already merged
+		contributed := v
+		appended := false
+		if c, ok := v.(*ssa.Call); ok {
+			if bi, isB := c.Call.Value.(*ssa.Builtin); isB && bi.Name() == "append" && len(c.Call.Args) == 2 {
+				lk, isLk := canon(c.Call.Args[0]).(*ssa.Lookup)
+				if !isLk || canon(lk.X) != canon(mu.Map) {
+					why += " append at " + p.InstrPos(in) + " does not start from what is already merged under the name (values of the second list would come first or replace the first's);"
+				}
+				contributed = c.Call.Args[1]
+				appended = true
 			}
-			return
 		}
-		c, ok := v.(*ssa.Call)
-		if !ok {
+		if loadedField(canon(contributed)) != valF {
 			why += " unrecognised merged value at " + p.InstrPos(in) + ";"
 			return
 		}
-		if bi, isB := c.Call.Value.(*ssa.Builtin); !isB || bi.Name() != "append" || len(c.Call.Args) != 2 {
-			why += " unrecognised merged value at " + p.InstrPos(in) + ";"
-			return
-		}
-		nAppend++
-		lk, isLk := canon(c.Call.Args[0]).(*ssa.Lookup)
-		if !isLk || canon(lk.X) != canon(mu.Map) {
-			why += " append at " + p.InstrPos(in) + " does not start from what is already merged under the name (values of the second list would come first or replace the first's);"
-		}
-		if loadedField(canon(c.Call.Args[1])) != valF || !fromOnly(c.Call.Args[1], b, a) {
-			why += " append at " + p.InstrPos(in) + " does not append the second parameter's values;"
+		switch {
+		case fromOnly(contributed, a, b):
+			nA++
+			updA = append(updA, in)
+		case fromOnly(contributed, b, a):
+			nB++
+			updB = append(updB, in)
+			if !appended {
+				why += " plain assignment at " + p.InstrPos(in) + " takes the second parameter's values (it replaces what the first list contributed);"
+			}
+		default:
+			why += " the values merged at " + p.InstrPos(in) + " do not come from exactly one of the two lists;"
 		}
 	})
-	if nAssign == 0 || nAppend == 0 {
-		why += fmt.Sprintf(" expected an assignment for the first list and an append for the second (found %d / %d);", nAssign, nAppend)
+	if nA == 0 || nB == 0 {
+		why += fmt.Sprintf(" expected an update for the first list and an append for the second (found %d / %d);", nA, nB)
 	}
-	r.Check(why == "", "merge.order", "R-WIRE", p.Pos(fn.Pos()), "merged[name] = a's values, then append(merged[name], b's values...), keys lower-cased",
+	// the first list is merged completely before the second
+	for _, ua := range updA {
+		for _, ub := range updB {
+			if reachable(ub.Block(), ua.Block()) {
+				why += " values of the first list can be merged after values of the second (" + p.InstrPos(ua) + " is reachable from " + p.InstrPos(ub) + ");"
+			}
+		}
+	}
+	r.Check(why == "", "merge.order", "R-WIRE", p.Pos(fn.Pos()), "per lower-cased name: a's values (assigned or appended), then append(merged[name], b's values...)",
 		"mergeHeaders does not produce headers-then-trailers per name:"+why+" for a name that occurs both as response header and trailer the merged expectation differs from what every protocol delivers")
 }
 
